@@ -544,6 +544,87 @@ def rule_r6(rep, repo):
                       f"points appended for shell i", where)
 
 
+SORTED_MAKERS = {"sorted", "np.sort", "np.unique", "np.arange", "np.linspace", "np.cumsum", "np.geomspace", "np.logspace"}
+SEARCHES = {"np.searchsorted": 0, "numpy.searchsorted": 0, "bisect_left": 0, "bisect_right": 0, "bisect": 0,
+            "bisect.bisect_left": 0, "bisect.bisect_right": 0, "bisect.bisect": 0, "np.digitize": 1, "np.interp": 1}
+
+
+def rule_r7(rep, repo):
+    """Binary searches need an ordered haystack.  The sector -> degree assignment must hold for every
+    radial grid, also one whose nodes decrease (MultiExp, reversed grids): a `searchsorted` / `bisect` /
+    `digitize` / `interp` over data whose order is not established in the same function silently
+    returns wrong positions.  Sites in atomgrid.py and angular.py; a haystack is ordered when it is
+    produced by sorted/np.sort/np.unique/arange/linspace/cumsum or is the key list of a dispatched
+    degree/size table (ascending by C12.O1)."""
+    m = AngularModel(repo)
+    table_vars = {v for d in m.var.values() for v in d.values()}
+    n = 0
+    for q, f in repo.funcs.items():
+        if f.module not in ("atomgrid", "angular") or f.is_lambda or repo.by_node.get(id(f.node)) is not f:
+            continue
+        defs = {}
+        for st in ast.walk(f.node):
+            if isinstance(st, ast.Assign) and len(st.targets) == 1 and isinstance(st.targets[0], ast.Name):
+                defs.setdefault(st.targets[0].id, []).append(st.value)
+
+        def ordered(e, depth=0):
+            """True / False (caller data, order unknown) / None (cannot tell)."""
+            if isinstance(e, ast.Call):
+                fn = norm(e.func)
+                if fn in SORTED_MAKERS:
+                    return True
+                if fn in ("list", "tuple", "np.array", "np.asarray") and e.args:
+                    a = e.args[0]
+                    if isinstance(a, ast.Call) and isinstance(a.func, ast.Attribute) and a.func.attr == "keys" \
+                            and norm(a.func.value) in table_vars:
+                        return True
+                    if norm(a) in table_vars:
+                        return True
+                    return ordered(a, depth + 1)
+                return None
+            if isinstance(e, ast.Subscript) and isinstance(e.slice, ast.Slice) and e.slice.step is None:
+                return ordered(e.value, depth + 1)     # a contiguous slice of an ordered sequence is ordered
+            if isinstance(e, ast.Name):
+                if e.id in defs and depth < 5:
+                    rs = [ordered(v, depth + 1) for v in defs[e.id]]
+                    if all(r is True for r in rs):
+                        return True
+                    if any(r is False for r in rs):
+                        return False
+                    return None
+                if e.id in f.allparams:
+                    return False
+                return None
+            if isinstance(e, ast.Attribute):
+                root = e
+                while isinstance(root, (ast.Attribute, ast.Subscript)):
+                    root = root.value
+                if isinstance(root, ast.Name) and (root.id in f.allparams):
+                    return False
+                return None
+            return None
+        for c in ast.walk(f.node):
+            if not (isinstance(c, ast.Call) and norm(c.func) in SEARCHES):
+                continue
+            pos = SEARCHES[norm(c.func)]
+            hay = c.args[pos] if len(c.args) > pos else next((k.value for k in c.keywords if k.arg in ("a", "bins", "xp")), None)
+            if hay is None or any(k.arg == "sorter" for k in c.keywords):
+                continue
+            n += 1
+            r = ordered(hay)
+            if r is True:
+                rep.ok("R7.binary-search-needs-order", f"{q}:{norm(hay)[:30]}", repo.rel(f.module, c), norm(c)[:70])
+            elif r is False:
+                rep.violation("R7.binary-search-needs-order", q, norm(hay)[:40],
+                              f"`{norm(c)[:90]}` bisects `{norm(hay)[:40]}`, which comes from the caller and is not put in "
+                              f"order in this function: for a radial grid whose nodes are not ascending (MultiExp, a "
+                              f"reversed grid) the positions -- and with them the degrees of the shells -- are wrong",
+                              repo.rel(f.module, c))
+            else:
+                raise AnalysisError(f"cannot tell whether `{norm(hay)[:40]}` searched in {q} is ordered")
+    rep.floor("binary-search sites (positive examples: the degree/size resolver)", n, 2)
+
+
 def run(tier="quick", root="/repo", evidence_dir=None, quiet=False):
     rep = Report(PROP, tier, root, EXPLANATION, RULE, assumptions=[
         "npz member headers and the small integer/float preset tables are read as configuration tables "
@@ -552,7 +633,7 @@ def run(tier="quick", root="/repo", evidence_dir=None, quiet=False):
         "history cannot change it)",
     ])
     repo = get_repo(root)
-    for rule in (rule_r1, rule_r2, rule_r3, rule_r4, rule_r6):
+    for rule in (rule_r1, rule_r2, rule_r3, rule_r4, rule_r6, rule_r7):
         rep.attempt(rule, rep, repo)
     rep.extra["source_digest"] = repo.digest(["atomgrid", "angular"])
     return rep.finish(evidence_dir=evidence_dir, quiet=quiet)
